@@ -193,6 +193,10 @@ func runC12(c c12Case) Result {
 			if kind == "cli-setup" {
 				sub = "setup"
 			}
+			if kind == "cli-r1cs" && refLen > 0 {
+				// the output path already exists and is longer than what will be written (a re-run over an older file)
+				os.WriteFile(out, bytes.Repeat([]byte{0xAA}, refLen+1000), 0o644)
+			}
 			r := runCLI(900*time.Second, nil, []string{"GOMAXPROCS=" + gmp}, sub, "--mode", c.Mode, "--output", out, "--tree-depth", fmt.Sprint(c.Depth), "--batch-size", fmt.Sprint(c.Batch))
 			if r.ExitCode != 0 {
 				return bad(class, "cli-"+sub+":exit", "%s: exit %d: %s", triple, r.ExitCode, tail(r.Stderr, 300))
